@@ -17,7 +17,7 @@ def run(tier, rep):
     # fresh interpreters under several string-hash seeds and injected flow-graph orders; every distinct text is one more program
     from checks import C08
     from common import workdir
-    core = families.double_flat_core() + families.flat_split_core()[::2]
+    core = families.double_flat_core() + families.flat_split_core()[::2] + families.occ_flat_core()[::3]
     with workdir("C07v") as wd:
         res = C08.compile_variants(core, wd, 6 if q else 24, 2 if q else 8)
     texts = {}
